@@ -6,6 +6,7 @@ package main
 // error (or panics) — it never reaches a clean return.
 
 import (
+	"go/constant"
 	"fmt"
 	"go/token"
 	"go/types"
@@ -53,6 +54,23 @@ func guardsOf(fn *ssa.Function) []guard {
 					op = negateOp(op)
 				}
 				gs = append(gs, guard{iff: iff, x: x.X, y: x.Y, op: op})
+				// integer comparisons with a constant have two spellings (x > k  <=>  x >= k+1):
+				// add the other one so that either matches an obligation
+				if cv, isC := x.Y.(*ssa.Const); isC && cv.Value != nil && cv.Value.Kind() == constant.Int && isIntegerType(x.X.Type()) {
+					one := constant.MakeInt64(1)
+					plus := ssa.NewConst(constant.BinaryOp(cv.Value, token.ADD, one), cv.Type())
+					minus := ssa.NewConst(constant.BinaryOp(cv.Value, token.SUB, one), cv.Type())
+					switch op {
+					case token.GTR:
+						gs = append(gs, guard{iff: iff, x: x.X, y: plus, op: token.GEQ})
+					case token.GEQ:
+						gs = append(gs, guard{iff: iff, x: x.X, y: minus, op: token.GTR})
+					case token.LSS:
+						gs = append(gs, guard{iff: iff, x: x.X, y: minus, op: token.LEQ})
+					case token.LEQ:
+						gs = append(gs, guard{iff: iff, x: x.X, y: plus, op: token.LSS})
+					}
+				}
 			}
 		case *ssa.Call:
 			gs = append(gs, guard{iff: iff, call: x, neg: neg})
@@ -510,5 +528,49 @@ func roleSum32Fed(fed ...role) role {
 			}
 		}
 		return true
+	}
+}
+
+// constPlus builds a constant of the type of like with value k.
+func constPlus(like ssa.Value, k int64) ssa.Value {
+	return ssa.NewConst(constant.MakeInt64(k), like.Type())
+}
+
+// roleFieldValue: v is a load of field f, or the value some store puts into f (a check made
+// on the value before it is stored is a check of the field).
+func roleFieldValue(c *Ctx, f *types.Var) role {
+	vals := map[ssa.Value]bool{}
+	if f != nil {
+		for _, fn := range c.modFuncs {
+			for _, b := range fn.Blocks {
+				for _, ins := range b.Instrs {
+					if st, ok := storeToField(ins, f); ok {
+						vals[stripConv(st.Val)] = true
+						// a value produced by a new helper: every value it returns on success
+						var call *ssa.Call
+						idx := 0
+						switch y := st.Val.(type) {
+						case *ssa.Call:
+							call = y
+						case *ssa.Extract:
+							call, _ = y.Tuple.(*ssa.Call)
+							idx = y.Index
+						}
+						if call != nil {
+							if cal := call.Call.StaticCallee(); cal != nil && c.IsNew(cal) {
+								for _, hb := range cal.Blocks {
+									if ret, isRet := hb.Instrs[len(hb.Instrs)-1].(*ssa.Return); isRet && idx < len(ret.Results) {
+										vals[stripConv(ret.Results[idx])] = true
+									}
+								}
+							}
+						}
+					}
+				}
+			}
+		}
+	}
+	return func(v ssa.Value) bool {
+		return f != nil && (isFieldLoadOf(v, f) || vals[stripConv(v)])
 	}
 }
